@@ -287,6 +287,42 @@ def loser_no_effect(race, start, reqs):
                 {'left': left, 'status': race.responses[n].status})
 
 
+def returned_generation_is_committed(race, start, reqs):
+    """C10 under concurrency: the provider generation a successful write
+    reports is the one that write committed (the value stored right after
+    its own last state-changing transaction), whatever ran in between."""
+    for n in sorted(reqs):
+        resp = race.responses[n]
+        j = resp.json
+        u = reqs[n].get('target')
+        if not resp.ok or not isinstance(j, dict) or u is None:
+            continue
+        g = j.get('resource_provider_generation')
+        if g is None and reqs[n]['op'] in ('update_rp', 'create_rp'):
+            g = j.get('generation')
+        if g is None:
+            continue
+        prev = start
+        own = None
+        for (name, kind, d) in race.points:
+            if d is None:
+                continue
+            if name == n and kind == 'txn-end' and \
+                    sched.noids(d) != sched.noids(prev):
+                own = d
+            prev = d
+        if own is None or u not in own.providers:
+            continue
+        stored = own.providers[u]['generation']
+        if stored != g:
+            raise Violation(
+                {'clause': 'returned-generation-is-not-the-committed-one',
+                 'op': reqs[n]['op']},
+                {'request': n, 'returned': g, 'stored_after_own_commit':
+                 stored, 'statuses': {k: race.responses[k].status
+                                      for k in reqs}})
+
+
 def integrity(race):
     if race.final.dangling:
         raise Violation({'clause': 'dangling-reference-after-race',
